@@ -18,7 +18,7 @@ def P(rule, monitors, inproc=None, cells=None, extra_assume=None, evaluations=10
     ladder = ["size-ladder"] if "size ladder" in rule else []
     return {"rule": rule, "assumptions": COMMON_ASSUME + (extra_assume or []),
             "floors": {"evaluations": evaluations, "monitors": monitors, "cells": (cells or []) + ladder},
-            "inproc": inproc or {"quick": [("relchk", 16, 8.0)], "thorough": [("relchk", 16, 3.0)]},
+            "inproc": inproc or {"quick": [("relchk", 16, 8.0)], "thorough": [("relchk", 16, 3.0), ("release", 16, 1.0)]},
             "proc": proc or {"quick": [], "thorough": []}}
 
 
